@@ -254,6 +254,7 @@ class Sim:
             raise
         self.initial_digest = state_digest(self.world[0])
         self.titl0 = [self.world[0].titl]
+        self.kw = [False]  # "keyword" crystals: see ops.KW_QUERIES
         self.repeat = [{}]
         self.last_mut = [None]
         self.last_raise = [None]
@@ -325,13 +326,25 @@ class Sim:
         self._abstract(hi, op)
         before_mask = memo_mask(self.world[hi])
         fb = {"op": op, "h": hi, "new_memo": False, "changed": False, "raised": None}
+        # the proviso: a crystal's queries are always issued with the same
+        # arguments. Keyword-argument queries only go to keyword crystals, and
+        # those never get a default-argument query that builds the bond graph
+        # (such a step - e.g. after the minimiser redirected it - is skipped).
+        if hi < len(self.kw) and (
+            (op in O.KW_QUERIES and not self.kw[hi])
+            or (self.kw[hi] and op not in O.KW_QUERIES and op not in O.KW_SAFE
+                and (op in O.ALL_QUERIES or op in O.RAISERS or op in O.MUTATORS or op in O.DERIVES))
+        ):
+            self.stats["skipped_not_applicable_to_handle"] += 1
+            self._log(i, hi, op, "skipped:n/a")
+            return fb
         if op in O.ALL_QUERIES or op in O.RAISERS:
             fn = O.ALL_QUERIES[op][0] if op in O.ALL_QUERIES else O.RAISERS[op]
             a = self._check_query(i, hi, op, fn, inject=st.get("inject"))
             fb["raised"] = a[1] if a[0] == "raised" else None
         elif op in O.MUTATORS:
             self._mutate(i, hi, op, fb, inject=st.get("inject"))
-        elif op in O.FORKS or op in ("reload", "stranger", "other"):
+        elif op in O.FORKS or op in ("reload", "stranger", "stranger_kw", "other"):
             self._fork(i, hi, op)
         elif op in O.DERIVES:
             self._derive(i, hi, op)
@@ -483,6 +496,7 @@ class Sim:
                         "after": self._after(hi)})
                 self.world.append(new)
                 self.titl0.append(new.titl)
+                self.kw.append(False)
                 self.repeat.append({})
                 self.last_mut.append(None)
                 self.last_raise.append(None)
@@ -512,6 +526,7 @@ class Sim:
                     return
                 self.world.append(new)
                 self.titl0.append(new.titl)
+                self.kw.append(False)
                 self.repeat.append({})
                 self.last_mut.append(None)
                 self.last_raise.append(None)
@@ -520,7 +535,7 @@ class Sim:
                 self._log(i, hi, op, "-> h%d" % (len(self.world) - 1))
                 self._check_others(i, hi, op, others)
                 return
-            if op == "stranger":
+            if op in ("stranger", "stranger_kw"):
                 # a different crystal that looks alike: same group, elements,
                 # labels and name, shifted sites - anything cached under a
                 # key the two share would now be served to the wrong one
@@ -530,11 +545,12 @@ class Sim:
                 new = Crystal(uc, sg, au, titl=base.titl)
                 self.world.append(new)
                 self.titl0.append(new.titl)
+                self.kw.append(op == "stranger_kw")
                 self.repeat.append({})
                 self.last_mut.append(None)
                 self.last_raise.append(None)
                 self.armed.append(False)
-                self.stats["fork:stranger"] += 1
+                self.stats["fork:" + op] += 1
                 self._log(i, hi, op, "-> h%d" % (len(self.world) - 1))
                 self._check_others(i, hi, op, others)
                 return
@@ -550,6 +566,7 @@ class Sim:
                                                         "after": self._after(hi)})  # fmt: skip
         self.world.append(new)
         self.titl0.append(self.titl0[hi])
+        self.kw.append(self.kw[hi])
         self.repeat.append(dict(self.repeat[hi]))
         self.last_mut.append(self.last_mut[hi])
         self.last_raise.append(self.last_raise[hi])
@@ -570,7 +587,7 @@ class Sim:
             self._log(i, hi, "drop", "skipped")
             return
         others = [(j, sd, md) for j, sd, md in self._others(len(self.world) - 1)]
-        for lst in (self.world, self.titl0, self.repeat, self.last_mut, self.last_raise, self.armed):
+        for lst in (self.world, self.titl0, self.kw, self.repeat, self.last_mut, self.last_raise, self.armed):
             lst.pop()
         gc.collect()
         self.stats["fork:drop"] += 1
@@ -608,6 +625,7 @@ class Sim:
             raise Violation("QUERY_MUTATED_STATE", i, op, hi, {"what": "derivation changed its source"})
         self.world.append(new)
         self.titl0.append(new.titl)
+        self.kw.append(False)
         self.repeat.append({})
         self.last_mut.append(None)
         self.last_raise.append(None)
